@@ -219,6 +219,12 @@ def run(ctx, res):
                     vaddr = bv.zext(get(facts, PH, ph, "virtual_addr").bits, 64)
                     filesz = bv.zext(get(facts, PH, ph, "size_in_file").bits, 64)
                     offs = bv.zext(get(facts, PH, ph, "offset").bits, 64)
+                    # structurally valid files: p_vaddr + p_filesz and p_offset + p_filesz do not exceed 32 bits (in the dev
+                    # profile the overflow check already removes these cases; in the release profile the sums wrap and the
+                    # slice expressions then fail their start <= end test - a panic, outside the property either way)
+                    c1 = bv.add_c(get(facts, PH, ph, "virtual_addr").bits, get(facts, PH, ph, "size_in_file").bits)[1][-1]
+                    c2 = bv.add_c(get(facts, PH, ph, "offset").bits, get(facts, PH, ph, "size_in_file").bits)[1][-1]
+                    care = Mx.AND(care, Mx.AND(Mx.NOT(c1), Mx.NOT(c2)))
                     exp_ds = bv.add(bv.const(OFF, 64), vaddr)
                     exp_de = bv.add(exp_ds, filesz)
                     exp_se = bv.add(offs, filesz)
